@@ -40,6 +40,16 @@ def main(argv: List[str]) -> int:
             tid += 1
             items[tid] = {'tid': tid, 'doc': doc, 'allow': False, 'want': 'links', 'fseed': fseed, 'pinned': pinned,
                           'seed': seed, 'gen': 'RandDoc'}
+    # the exhaustive per-element products of GenProduct.tla (every kind x addressing mode x arity of reference, every enum
+    # binding, groups): links of each
+    nprod = 0
+    for fam in ('ref', 'enum', 'misc', 'index', 'column'):
+        ps, _ = docs.gen_products(fam, doccheck.budget(150, 10 ** 9 if fam != 'column' else 4000), rep)
+        nprod += len(ps)
+        for pid, doc in ps:
+            tid += 1
+            items[tid] = {'tid': tid, 'doc': doc, 'allow': False, 'want': 'links', 'fseed': None, 'pinned': {}, 'seed': pid, 'gen': 'GenProduct'}
+    rep.notes['product_documents'] = nprod
     res = docs.run_items(list(items.values()), rep, 'C05')
     doccheck.judge('C05', rep, res, items, lambda it: has_link(it['doc']))
     from . import census
